@@ -192,6 +192,24 @@ def run_loads(col):
                 return not bad2, "%s: %s" % (method_where(cls, "update"), "; ".join(b[:120] for b in bad2[:2]))
             col.check("C14.O4", "PointLoad update (axisymmetric=%s, %d extra fields)" % (axi, mixed), "after update(values) the item assembles the vector of a fresh item with those values and the same points / flags", chk_pl)
             col.add("C14.O4", "PointLoad vector (axisymmetric=%s, %d extra fields)" % (axi, mixed), "exactly the given values in the rows of the loaded points (times 2 pi R when axisymmetric), zeros elsewhere", not bad and r.shape == (n, 1), "rows %s" % bad)
+        # documented alternative spellings: ids counted from the end, one scalar for every component, no values at all
+        npts_ = ra.mesh.npoints
+        for pts2, vals2, what in (([-1, 0], symarray("pn", (2, d)), "negative id"), ([1], sym("qs"), "scalar value"), ([2, 1], None, "values=None"),
+                                  (np.array([0, 2]), symarray("pr", (d,)), "one row for all points")):
+            def chk_alt(pts2=pts2, vals2=vals2):
+                item = it.call(cls, [fc, pts2], dict(values=vals2))
+                r = micro.dense(it.call(it.getattr(it.getattr(item, "assemble"), "vector"), [fc], {}))
+                ids = [int(q) % npts_ for q in pts2]
+                bad = []
+                for k in range(n):
+                    want = ZERO
+                    if k < npts_ * d and (k // d) in ids and vals2 is not None:
+                        v = np.asarray(npmodel.to_obj(np.asarray(vals2)))
+                        want = P(v[ids.index(k // d), k % d]) if v.ndim == 2 else (P(v[k % d]) if v.ndim == 1 else P(vals2))
+                    if not is_zero(P(r[k, 0]) - want):
+                        bad.append(k)
+                return not bad and r.shape == (n, 1), "mechanics/_pointload.py PointLoad._vector: rows %s" % bad
+            col.check("C14.O4", "PointLoad %s (%d extra fields)" % (what, mixed), "the given values land in the rows of the addressed points (ids from the end, scalars and single rows broadcast, None is a zero load)", chk_alt)
         if mixed:
             item = it.call(cls, [fc, [1]], dict(values=[[sym("q")]], apply_on=1))
             r = micro.dense(it.call(it.getattr(it.getattr(item, "assemble"), "vector"), [fc], {}))
